@@ -12,7 +12,10 @@ RULE = ("arc/line tissues (Voronoi, Moebius images, exact square/brick lattices)
 TRUSTED = ["hand-written model Model/ForceSys.v tied to fmatrix._build_matrix/get_vertex_equation/eid_from_vertex and "
            "edge.get_vector_from_vertex by exact (rational) correspondence; the fitted circle centre and the normalised "
            "versor are taken from the implementation (circle fit and np.linalg.norm are oracles)",
-           "row order follows the implementation's tj_vertices (iteration order of a Python set; the property does not fix it)"]
+           "row order follows the implementation's tj_vertices (iteration order of a Python set; the property does not fix it)",
+           "Model/CircleFit.v: the nested function objective_f of dlite_circle_method is rebuilt from the function's code object and closed over the "
+           "test points (PrimFloat, 1e-11); the shortcut for collinear points is observed through calculate_circle_center's return value (decision exact "
+           "over Q on dyadic points, far centre in PrimFloat)"]
 ASSUMPTIONS = ["circle-fit accuracy (fit_delta, calibrated by tools/calibrate_fit.py after the fix of D25): 1e-5 (dlite) / 1e-6 (taubinSVD) on arcs, 1e-3 on "
                "straight interfaces with >= 3 points, 1e-12 for two-point interfaces"]
 TESTED_NOT_PROVED = ["that leastsq / taubinSVD reach the centre of the arc is checked numerically per interface (c02.fit_delta); that the centre is the only global "
